@@ -111,6 +111,7 @@ inductive Err
   | state | offerState | unsigned | orderUnsigned | nonceEmpty
   | digestVersion | digestState | badSig | panic | facts
   | ticketState | recipient | notOurs | market | capacity | pushAmt | pushOut | bidAmt | minUnits
+  | bidLease | bidPush | bidUnannounced | bidZeroConf
   | exists | unknown
 deriving DecidableEq, Repr
 
@@ -240,13 +241,26 @@ def checkOfferParamsForOrder (auctionType : Nat) (t : Ticket) (bidAmt : Int) (mi
       else if t.capacity != wrapI64 ((minUnits : Int) * baseUnit) then some .minUnits
       else none
 
-/-- the terms of the bid that `validateAndSignTicketForOrder` reads -/
+/-- the terms of the bid that `validateAndSignTicketForOrder` reads (incl. `CheckOfferMatchesBid`) -/
 structure BidTerms where
   auctionType : Nat           -- uint32
   amt : Int                   -- btcutil.Amount
   minUnitsMatch : Nat         -- SupplyUnit = uint64
   nonce : Bytes               -- [32]byte
+  leaseDuration : Nat         -- uint32
+  selfChanBalance : Int       -- btcutil.Amount
+  unannounced : Bool
+  zeroConf : Bool
 deriving DecidableEq, Repr
+
+/-- `CheckOfferMatchesBid(offer, bid)`: the channel parameters of the bid are the ones promised in the
+offer; an offer lease duration of zero does not restrict the bid. -/
+def checkOfferMatchesBid (t : Ticket) (bid : BidTerms) : Option Err :=
+  if t.leaseDuration != 0 && t.leaseDuration != bid.leaseDuration then some .bidLease
+  else if t.pushAmt != bid.selfChanBalance then some .bidPush
+  else if t.unannounced != bid.unannounced then some .bidUnannounced
+  else if t.zeroConf != bid.zeroConf then some .bidZeroConf
+  else none
 
 /-- `manager.validateAndSignTicketForOrder(ctx, t, bid, acct)`: `acctKey` = `acct.TraderKey.PubKey`,
 `k` = the key the manager's signer holds at `acct.TraderKey.KeyLocator`. -/
@@ -264,9 +278,12 @@ def validateAndSign (H : Bytes → Bytes) (t : Ticket) (bid : BidTerms) (acctKey
           else match checkOfferParamsForOrder bid.auctionType t bid.amt bid.minUnitsMatch with
             | some e => (t, some e)
             | none =>
-              match signOrder H (some t) bid.nonce k with
-              | (some t', e) => (t', e)
-              | (none, e) => (t, e)
+              match checkOfferMatchesBid t bid with
+              | some e => (t, some e)
+              | none =>
+                match signOrder H (some t) bid.nonce k with
+                | (some t', e) => (t', e)
+                | (none, e) => (t, e)
 
 /-! ## sidecar_acceptor.go guards -/
 
